@@ -98,6 +98,43 @@ fn child() {
                 });
                 o["panicked"] = json!(r.is_err());
             }
+            // an emission made by a future wrapped in `WithDispatch` (tracing::instrument::WithCollector), polled once:
+            // logged as the three actions it must be equal to -- set_default(d), emit, unset
+            "wd_emit" => {
+                let t = step["t"].as_u64().unwrap();
+                let d = handles[&step["d"].as_u64().unwrap()].clone();
+                let lvl = step["c"]["lvl"].as_u64().unwrap();
+                let tgt = step["c"]["tgt"].as_str().unwrap().to_string();
+                let k = step["k"].as_str().unwrap_or("event").to_string();
+                drain(&log);
+                let r = ws.run(t, move |_| {
+                    use std::future::Future;
+                    use tracing::instrument::WithCollector;
+                    let fut = async move {
+                        if k == "span" {
+                            !emit_span(lvl, &tgt).is_disabled()
+                        } else {
+                            emit_event(lvl, &tgt);
+                            true
+                        }
+                    }
+                    .with_collector(d);
+                    let mut fut = Box::pin(fut);
+                    let w = vh_common::noop_waker();
+                    let mut cx = std::task::Context::from_waker(&w);
+                    match fut.as_mut().poll(&mut cx) {
+                        std::task::Poll::Ready(v) => json!(v),
+                        std::task::Poll::Pending => json!("pending"),
+                    }
+                });
+                let calls = drain(&log);
+                let want = if step["k"].as_str().unwrap_or("event") == "span" { "new_span" } else { "event" };
+                let got: Vec<u64> = calls.iter().filter(|c| c["call"] == want).map(|c| c["col"].as_u64().unwrap()).collect();
+                runner::child_emit(json!({"ev": "set_default", "t": t, "d": step["d"], "ml": ml(), "via": "WithDispatch"}));
+                runner::child_emit(json!({"ev": "emit", "t": t, "c": step["c"], "k": step["k"], "ml": ml(), "via": "WithDispatch",
+                    "got": match got.len() { 0 => json!(0), 1 => json!(got[0]), _ => json!(-1) }, "ret": r.unwrap_or(json!("panic"))}));
+                o = json!({"ev": "unset", "t": t, "via": "WithDispatch"});
+            }
             "emit" => {
                 let t = step["t"].as_u64().unwrap();
                 let lvl = step["c"]["lvl"].as_u64().unwrap();
